@@ -27,8 +27,10 @@ VARIABLES l,        \* next line to consume
           lg,       \* Legal(pos) when some enabled check needs it
           usable,   \* the state has exactly one king per side (the definitions apply)
           reach,    \* the current history started from a start-position constructor: its states are reachable by play
+          spos,     \* the position the RULES give for this history (Make / NullMake from the reset state), while the
+                    \* library's own successors are only logged; equal to pos unless a successor was wrong
           nviol
-vars == <<l, cur, pos, lg, usable, reach, nviol>>
+vars == <<l, cur, pos, lg, usable, reach, spos, nviol>>
 
 ToB(arr) == [s \in Sq |-> arr[s+1]]
 PosOf(st) == [b |-> ToB(st.b), stm |-> st.stm, cr |-> st.cr, ep |-> st.ep, hmc |-> st.hmc, fmn |-> st.fmn]
@@ -56,12 +58,16 @@ Goto(st, ms0) ==
   /\ usable' = OneKingEach(p)
   /\ lg' = IF NeedLegal /\ OneKingEach(p) THEN Legal(p) ELSE {}
 \* an observation on the current state
-Obs(ms) == /\ Rep(ms) /\ nviol' = nviol + Cardinality(ms) /\ UNCHANGED <<cur, pos, lg, usable, reach>>
+Obs(ms) == /\ Rep(ms) /\ nviol' = nviol + Cardinality(ms) /\ UNCHANGED <<cur, pos, lg, usable, reach, spos>>
 
 (* ------------------------- state-changing events ------------------------- *)
 TraceReset == IsEvent("reset") /\ Goto(Recs[l].st, {}) /\ reach' = (Recs[l].src \in {"start960", "dfrc", "default"})
+              /\ spos' = PosOf(Recs[l].st)
 
 TracePlay == /\ UNCHANGED reach /\ IsEvent("play")
+  /\ spos' = (LET r == Recs[l] IN
+              IF r.res = "ok" /\ usable /\ OneKingEach(spos) /\ r.m \in (IF spos = pos /\ NeedLegal THEN lg ELSE Legal(spos))
+              THEN Make(spos, r.m) ELSE IF r.res = "ok" THEN PosOf(r.st) ELSE spos)
   /\ LET r == Recs[l]  m == r.m  logged == PosOf(r.st)  legal == m \in lg IN
      IF ~usable THEN Goto(r.st, {}) ELSE
      Goto(r.st,
@@ -76,6 +82,8 @@ TracePlay == /\ UNCHANGED reach /\ IsEvent("play")
           \cup IF_(C15 /\ r.st # cur, {<<"C15", "board-changed-by-refused-move", m>>}))
 
 TraceNull == /\ UNCHANGED reach /\ IsEvent("null")
+  /\ spos' = (LET r == Recs[l] IN IF r.res = "some" /\ OneKingEach(spos) /\ NullOk(spos) THEN NullMake(spos)
+                                ELSE IF r.res = "some" THEN PosOf(r.st) ELSE spos)
   /\ LET r == Recs[l]  logged == PosOf(r.st)  ok == NullOk(pos) IN
      IF ~usable THEN Goto(r.st, {}) ELSE
      Goto(r.st,
@@ -91,11 +99,13 @@ TraceNull == /\ UNCHANGED reach /\ IsEvent("null")
 
 \* clock setters (beyond the listed properties): range check, nothing else moves
 TraceSetHmc == /\ UNCHANGED reach /\ IsEvent("sethmc")
+  /\ spos' = (IF Recs[l].res = "ok" THEN [spos EXCEPT !.hmc = Recs[l].n] ELSE spos)
   /\ LET r == Recs[l]  okx == r.n <= 100
          exp == IF okx THEN [cur EXCEPT !.hmc = r.n] ELSE cur IN
      Goto(r.st, IF_(EXT /\ (r.res = "ok") # okx, {<<"EXT", "set-halfmove-range", r.n, r.res>>})
                 \cup IF_(EXT /\ r.st # exp, {<<"EXT", "set-halfmove-state", r.n>>}))
 TraceSetFmn == /\ UNCHANGED reach /\ IsEvent("setfmn")
+  /\ spos' = (IF Recs[l].res = "ok" THEN [spos EXCEPT !.fmn = Recs[l].n] ELSE spos)
   /\ LET r == Recs[l]  okx == r.n > 0
          exp == IF okx THEN [cur EXCEPT !.fmn = r.n] ELSE cur IN
      Goto(r.st, IF_(EXT /\ (r.res = "ok") # okx, {<<"EXT", "set-fullmove-range", r.n, r.res>>})
@@ -126,7 +136,10 @@ ContractChecks(bs, panic, ret) ==
 TraceGen == /\ IsEvent("gen")
   /\ LET r == Recs[l] IN
      IF ~usable THEN Obs({}) ELSE
-     Obs(IF_(C01, GenChecks(r.bt, lg, r.panic, r.ret, "C01")) \cup ContractChecks(r.bt, r.panic, r.ret))
+     Obs(IF_(C01, GenChecks(r.bt, lg, r.panic, r.ret, "C01")) \cup ContractChecks(r.bt, r.panic, r.ret)
+         \* the position this history leads to BY THE RULES (differs from the logged one only after a wrong successor)
+         \cup IF_(C01 /\ spos # pos /\ OneKingEach(spos) /\ ~r.panic /\ MovesOfBatches(r.bt) # Legal(spos),
+                 {<<"C01", "moves-are-not-the-legal-moves-of-the-position-the-history-leads-to", MovesOfBatches(r.bt) \ Legal(spos), Legal(spos) \ MovesOfBatches(r.bt)>>}))
 
 TraceGenFor == /\ IsEvent("genfor")
   /\ LET r == Recs[l]  mask == SetOfSeq(r.mask) IN
@@ -250,6 +263,7 @@ TraceRefused == IsEvent("refused") /\ Obs(IF_(EXT, {<<"EXT", "generated-sound-po
 TraceAborted == IsEvent("aborted") /\ Obs({})
 
 Init == /\ l = 1 /\ nviol = 0 /\ usable = FALSE /\ lg = {} /\ reach = FALSE
+        /\ spos = [b |-> EmptyBoard, stm |-> 0, cr |-> <<-1,-1,-1,-1>>, ep |-> -1, hmc |-> 0, fmn |-> 1]
         /\ pos = [b |-> EmptyBoard, stm |-> 0, cr |-> <<-1,-1,-1,-1>>, ep |-> -1, hmc |-> 0, fmn |-> 1]
         /\ cur = [b |-> <<>>, stm |-> 0, cr |-> <<-1,-1,-1,-1>>, ep |-> -1, hmc |-> 0, fmn |-> 1,
                   chk |-> <<>>, pin |-> <<>>, h |-> "", hn |-> ""]
